@@ -9,6 +9,8 @@ import DW.Driver.Names
 import DW.Driver.C16
 import DW.Driver.C18
 import DW.Driver.C19
+import DW.Driver.Alias
+import DW.Driver.C04
 
 open Lean DW.Driver
 
@@ -26,6 +28,8 @@ def dispatch (j : Json) : Except String Json := do
   | "c16" => handleC16 j
   | "c18" => handleC18 j
   | "c19" => handleC19 j
+  | "c08" => handleC08 j
+  | "c04" => handleC04 j
   | x => throw s!"unknown op {x}"
 
 def handleLine (line : String) : String :=
